@@ -47,7 +47,7 @@ class IndependentMultitaskVariationalStrategy(_VariationalStrategy):
         return self.base_variational_strategy.variational_params_initialized
 
     def kl_divergence(self):
-        return super().kl_divergence().sum(dim=-1)
+        return super().kl_divergence().sum(dim=self.task_dim)
 
     def __call__(self, x, task_indices=None, prior=False, **kwargs):
         r"""
